@@ -218,6 +218,8 @@ pub struct LinkState {
     pub receiver_gone: bool,
     /// Opposite direction (for faults that affect both directions).
     pub other: Option<std::sync::Weak<Mutex<LinkState>>>,
+    /// Do not record wire events (upper-layer workloads observe the API only).
+    pub quiet: bool,
 }
 
 impl LinkState {
@@ -294,7 +296,9 @@ impl Sink<Bytes> for SinkHalf {
             }
         }
         st.emitted += 1;
-        tr(json!({"ev": "wire_emit", "dir": self.0.1, "b": frame_json(&item, st.verbatim), "len": item.len(), "n": st.emitted}));
+        if !st.quiet {
+            tr(json!({"ev": "wire_emit", "dir": self.0.1, "b": frame_json(&item, st.verbatim), "len": item.len(), "n": st.emitted}));
+        }
         st.out.push_back(item);
         Ok(())
     }
@@ -384,7 +388,9 @@ impl Link {
         }
         if let Some(f) = st.out.pop_front() {
             st.delivered += 1;
-            tr(json!({"ev": "wire_deliver", "dir": self.1, "n": st.delivered}));
+            if !st.quiet {
+                tr(json!({"ev": "wire_deliver", "dir": self.1, "n": st.delivered}));
+            }
             st.inbox.push_back(f);
             if let Some(w) = st.rx_waker.take() {
                 w.wake();
@@ -502,4 +508,102 @@ pub fn prewarm() {
     rt.block_on(async {
         let _ = remoc::exec::are_threads_available().await;
     });
+}
+
+
+// ------------------------------------------------------------------------------------------------ task-style workloads
+
+/// Spawns a task of the workload itself: labelled and subject to H1 poll deferral like remoc's own tasks.
+pub fn spawn_d<F>(label: u64, fut: F) -> tokio::task::JoinHandle<F::Output>
+where
+    F: Future + Send + 'static,
+    F::Output: Send + 'static,
+{
+    tokio::spawn(remoc::verif::Deferred::new(Labeled::new(label, fut)))
+}
+
+/// Polls `fut` at most `polls` times, then drops it (cancellation after any poll). Returns None if cancelled.
+pub struct CancelAfter<F> {
+    inner: Option<Pin<Box<F>>>,
+    left: u64,
+}
+
+pub fn cancel_after<F: Future>(fut: F, polls: u64) -> CancelAfter<F> {
+    CancelAfter { inner: Some(Box::pin(fut)), left: polls }
+}
+
+impl<F: Future> Future for CancelAfter<F> {
+    type Output = Option<F::Output>;
+    fn poll(mut self: Pin<&mut Self>, cx: &mut Context<'_>) -> Poll<Self::Output> {
+        if self.left == 0 {
+            self.inner = None;
+            return Poll::Ready(None);
+        }
+        self.left -= 1;
+        match self.inner.as_mut().unwrap().as_mut().poll(cx) {
+            Poll::Ready(v) => {
+                self.inner = None;
+                Poll::Ready(Some(v))
+            }
+            Poll::Pending => {
+                if self.left == 0 {
+                    self.inner = None;
+                    return Poll::Ready(None);
+                }
+                Poll::Pending
+            }
+        }
+    }
+}
+
+/// Yields `n` times (a task holding a guard / being slow).
+pub async fn yields(n: u64) {
+    for _ in 0..n {
+        tokio::task::yield_now().await;
+    }
+}
+
+/// Background delivery of frames at a seeded random pace.
+pub fn spawn_pump(links: Vec<Link>, seed: u64) -> tokio::task::JoinHandle<()> {
+    let mut rng = Rng::new(seed ^ 0x9097);
+    tokio::spawn(async move {
+        loop {
+            for l in &links {
+                match rng.below(4) {
+                    0 => {}
+                    1 | 2 => {
+                        l.deliver();
+                    }
+                    _ => {
+                        while l.deliver() {}
+                    }
+                }
+            }
+            tokio::task::yield_now().await;
+        }
+    })
+}
+
+/// Waits until all tasks have finished or nothing has been recorded and no frame has been in flight for `idle`
+/// consecutive scheduler rounds. Returns the number of unfinished tasks (0 = all done).
+pub async fn wait_tasks<T>(handles: &mut Vec<tokio::task::JoinHandle<T>>, links: &[Link], idle: u64) -> usize {
+    let mut quiet = 0u64;
+    let mut last = trace_len();
+    loop {
+        handles.retain(|h| !h.is_finished());
+        if handles.is_empty() {
+            return 0;
+        }
+        tokio::task::yield_now().await;
+        let now = trace_len();
+        if now != last || links.iter().any(|l| l.pending() > 0) {
+            last = now;
+            quiet = 0;
+        } else {
+            quiet += 1;
+            if quiet > idle {
+                return handles.len();
+            }
+        }
+    }
 }
